@@ -1,5 +1,6 @@
 pub mod c04;
 pub mod c05;
+pub mod c07;
 pub mod c17;
 pub mod c19;
 
@@ -9,10 +10,11 @@ pub fn by_id(id: &str) -> Option<Box<dyn Scenario>> {
     match id {
         "C04" => Some(Box::new(c04::C04)),
         "C05" => Some(Box::new(c05::C05)),
+        "C07" => Some(Box::new(c07::C07)),
         "C17" => Some(Box::new(c17::C17)),
         "C19" => Some(Box::new(c19::C19)),
         _ => None,
     }
 }
 
-pub const ALL: &[&str] = &["C04", "C05", "C17", "C19"];
+pub const ALL: &[&str] = &["C04", "C05", "C07", "C17", "C19"];
